@@ -43,6 +43,12 @@ theorem busSpecMatches_false (a : RuleArgs) (v : Txdbus.Route.Msg) :
 A message without (truthy) destination has no per-destination stream; what can be said is said per receiver:
 the copies connection `j` gets of what `i` broadcast arrive in the step of the broadcast itself. -/
 
+/-- `P` holds for the k-th event and the k-th output, for every k (and there are as many outputs as events). -/
+def Stepwise {α β : Type} (P : α → β → Prop) : List α → List β → Prop
+  | [], [] => True
+  | a :: as, b :: bs => P a b ∧ Stepwise P as bs
+  | _, _ => False
+
 /-- A delivery to `j` that is a forwarded message from `i` without destination. -/
 def bcastOf (i j : ConnId) (dl : Delivery) : Option Msg :=
   match dl.what with
